@@ -11,6 +11,7 @@ From TarsV Require Xlate.BSWLEquiv.
 From TarsV Require Xlate.SelectEquiv.
 From TarsV Require Xlate.SWRREquiv.
 From TarsV Require Xlate.ChWeightEquiv.
+From TarsV Require Import Gen.SelRebuild Select.RebuildEquiv.
 Import ListNotations.
 
 (* members only: after any history, for any oracle values, a selection that succeeds returns an endpoint of the current set *)
@@ -130,3 +131,21 @@ Theorem C13_conhash_rounds_from_source : forall (w : Z) (weighted : bool), (- 2 
             ((0 < r)%Z <-> (0 < (if weighted then w else Z.of_N c_ConHashVirtualNodes))%Z).
 Proof. exact Xlate.ChWeightEquiv.tr_ch_weight_equiv. Qed.
 Print Assumptions C13_conhash_rounds_from_source.
+
+(* the rebuild step (after every Refresh / Add / Remove) as the CURRENT source of roundrobin / random / modhash reBuildLocked
+   has it (Gen/SelRebuild.v, regenerated on every run) is the model's rebuild: table dropped and recomputed from the new list
+   alone, round-robin cursors re-drawn within the new lengths *)
+Theorem C13_rebuild_from_source_rr : forall weighted l r1 r2 s0, exists s', rebuild RoundRobin weighted l r1 r2 = Ok s' /\ eps s' = l /\
+  gen_rr_reBuild weighted (length l) (cycle_of_list l) (draws r1 r2) s0 = rb_of s'.
+Proof. exact RebuildEquiv.gen_rr_reBuild_model. Qed.
+Print Assumptions C13_rebuild_from_source_rr.
+Theorem C13_rebuild_from_source_modhash : forall weighted l r1 r2 d s0, exists s', rebuild ModHash weighted l r1 r2 = Ok s' /\ eps s' = l /\
+  rb_cache (gen_mh_reBuild weighted (length l) (cycle_of_list l) d s0) = cache s' /\
+  rb_pos (gen_mh_reBuild weighted (length l) (cycle_of_list l) d s0) = rb_pos s0 /\ rb_wpos (gen_mh_reBuild weighted (length l) (cycle_of_list l) d s0) = rb_wpos s0.
+Proof. exact RebuildEquiv.gen_mh_reBuild_model. Qed.
+Print Assumptions C13_rebuild_from_source_modhash.
+Theorem C13_rebuild_from_source_random : forall weighted l r1 r2 d s0, exists s', rebuild Random weighted l r1 r2 = Ok s' /\ eps s' = l /\
+  rb_cache (gen_rnd_reBuild weighted (length l) (cycle_of_list l) d s0) = cache s' /\
+  rb_pos (gen_rnd_reBuild weighted (length l) (cycle_of_list l) d s0) = rb_pos s0 /\ rb_wpos (gen_rnd_reBuild weighted (length l) (cycle_of_list l) d s0) = rb_wpos s0.
+Proof. exact RebuildEquiv.gen_rnd_reBuild_model. Qed.
+Print Assumptions C13_rebuild_from_source_random.
